@@ -796,6 +796,7 @@ theorem Inv.finishFut {w : World} (h : Inv w) (hr : w.pool.released = false) (i 
   · exact hdrop _
   · exact hdrop _
   · exact hdrop _
+  · exact hdrop _
   · rename_i k hk0
     generalize sockStateAfter w.pool.kind s flag = st
     cases hb : f.buf with
@@ -1478,6 +1479,7 @@ theorem Live.terminalItem {w : World} {k : PKind} (h : Live w k) (i : Nat) (s : 
   split
   · exact hA _ rfl
   · exact hA _ rfl
+  · exact hA _ rfl
   · rename_i k'
     split
     · rename_i hb
@@ -1872,6 +1874,20 @@ theorem Inv.evWDstream {w : World} (h : Inv w) (i k : Nat) : Inv (evWDstream w i
         · exact h
         · exact (h.evDstream i).evWrite i k
 
+theorem Inv.evTCancel {w : World} (h : Inv w) (i : Nat) : Inv (evTCancel w i).1 := by
+  unfold Pool.evTCancel
+  split
+  · exact h
+  · rename_i s hv
+    obtain ⟨hr, hget⟩ := validSrc_some hv
+    split
+    · exact h
+    · rename_i f hf
+      split
+      · exact h
+      · exact ((h.live hr).setFutCtl i s { s with fut := some { f with done := some (.cancelled, false) } } f
+          { f with done := some (.cancelled, false) } hget hf rfl rfl rfl).1
+
 theorem Inv.evNextW {w : World} (h : Inv w) (i : Nat) : Inv (evNextW w i).1 := by
   unfold Pool.evNextW
   have h1 := h.evNext i
@@ -1909,6 +1925,7 @@ theorem Inv.step {w : World} (h : Inv w) (e : Ev) (hs : e.safe = true) : Inv (st
   | wcancel i k => exact h.evWCancel i k
   | wdstream i k => exact h.evWDstream i k
   | nextw i => exact h.evNextW i
+  | tcancel i => exact h.evTCancel i
 
 theorem Inv.run : ∀ (evs : List Ev) {w : World}, Inv w → (∀ e ∈ evs, e.safe = true) → Inv (run w evs)
   | [], w, h, _ => h
